@@ -363,7 +363,7 @@ def extract_trace_values(raw):
     return None, [], None
 
 
-def native_replay(obl, vals, odir, label):
+def native_replay(obl, vals, odir, label, detect_leaks=False):
     """Compile the same harness natively (gcc, ASan+UBSan) against the real
     sources and run it on the counterexample's input values."""
     exe = os.path.join(odir, "replay_" + label)
@@ -387,7 +387,7 @@ def native_replay(obl, vals, odir, label):
         return "replay-build-failed", (se or so).decode(errors="replace")[-2000:], valfile
     env = dict(os.environ)
     env["VP_REPLAY_VALUES"] = valfile
-    env["ASAN_OPTIONS"] = "detect_leaks=0:abort_on_error=0"
+    env["ASAN_OPTIONS"] = "detect_leaks=%d:abort_on_error=0" % (1 if detect_leaks else 0)
     rc, so, se, _ = _run([exe], timeout=120, env=env)
     out = (so + b"\n" + se).decode(errors="replace")
     if rc == 42:
@@ -471,7 +471,7 @@ def run_obligation(obl, scratch, keep=False):
         res.trace_human = human
         res.trace_file = toutf
         if obl.replay and r is not None:
-            st, out, valfile = native_replay(obl, vals, odir, "cex")
+            st, out, valfile = native_replay(obl, vals, odir, "cex", detect_leaks=("memory-leak" in pid))
             res.replay_status = st
             res.replay_output = out
         else:
